@@ -311,4 +311,25 @@ func runC11(c *Ctx) {
 		c.Check("F", fnName(fn)+"/a parts header is zero only if both the total and the hash are zero", ok, fn.Pos(), 2, "")
 	}
 
+	// signing uses the digest the verifying side will recompute: the hash defined by the very signer whose
+	// chain-id convention is stamped into V by WithSignature
+	if fn := c.Fn("types", "", "SignTx"); fn != nil {
+		n := 0
+		for _, in := range findInstrs(fn, CallTo(`^lib/crypto\.Sign$`, "")) {
+			a := argPaths(callCommon(in))
+			n++
+			c.Check("F", fnName(fn)+"/the digest signed is signer.Hash(tx) of the signer passed to WithSignature", len(a) == 2 && strings.Contains(a[0], "call:iface:(types.Signer).Hash(signer, tx)"), instrPos(in), 1,
+				"signs "+clip(a[0], 120)+": Sender() recomputes signer.Hash(tx); with a chain-id signer that differs from the chain-less hash, so sign-then-recover returns another address")
+		}
+		c.Check("F", fnName(fn)+"/one signing site", n == 1, fn.Pos(), n, "")
+		w := 0
+		for _, in := range findInstrs(fn, CallTo(`^\(\*types\.Transaction\)\.WithSignature$`, "")) {
+			a := argPaths(callCommon(in))
+			if len(a) == 3 && a[0] == "tx" && a[1] == "signer" {
+				w++
+			}
+		}
+		c.Check("F", fnName(fn)+"/the signature is attached to the same transaction under the same signer", w == 1, fn.Pos(), w, "")
+	}
+
 }
